@@ -207,6 +207,10 @@ class Prop:
         """additional property-specific checks; return list of violation dicts"""
         return []
 
+    def replay(self, obj):
+        """re-execute a replay file's failing input on the real code; returns the violation dict or None"""
+        return self.oracle(obj["case"])
+
 
 def load_known():
     p = os.path.join(ROOT, "known_findings.json")
@@ -414,7 +418,7 @@ def run_replay(prop: Prop, path: str) -> int:
     if obj.get("kind") != "failing-input":
         log(f"[{prop.id}] replay names a broken obligation, not an input: {[b['step'] for b in obj.get('broken', [])]}")
         return 1
-    v = prop.oracle(obj["case"])
+    v = prop.replay(obj)
     if v:
         log(f"[{prop.id}] replay reproduces: {v.get('what')}")
         log(f"VIOLATION property={prop.id} replay={path}")
